@@ -371,6 +371,18 @@ func (p Prop) checkClean(c *Case, x *execInfo) (string, string, string) {
 			}
 		}
 	}
+	// a value-receiver hook has no record identity: count it per operation
+	if k == "create_memo" || k == "save_memo" {
+		n := 0
+		for _, h := range sr.Hooks {
+			if h.Model == "Memo" && h.Hook == "BeforeSave" {
+				n++
+			}
+		}
+		if n != 1 {
+			return "hook_sequence", k + "|Memo.BeforeSave|count", fmt.Sprintf("one Memo was saved, its BeforeSave (value receiver) ran %d times", n)
+		}
+	}
 	// the operation's own transaction
 	pool := ""
 	for _, h := range sr.Hooks {
